@@ -471,6 +471,8 @@ func Register(names ...string) error {
 			p = NumberedProfile{Name: MixinName, Base: 3}
 		case ExtWideName:
 			p = ExtWideProfile{}
+		case ExtRawName:
+			p = ExtRawProfile{}
 		default:
 			return errors.New("unknown extension profile " + n)
 		}
@@ -538,6 +540,40 @@ func (ExtWideProfile) GetClaims() psatoken.IClaims {
 		panic(err)
 	}
 	return &ExtWideClaims{P2Claims: psatoken.P2Claims{Profile: &p, SwComponents: &psatoken.SwComponents[*psatoken.SwComponent]{}, CanonicalProfile: ExtWideName}}
+}
+
+// ---- an extension of profile 2 that keeps two claims UNDECODED (cbor.RawMessage, by
+// value and by pointer), e.g. a vendor blob handed on to another parser (seeded fault
+// C18-v: raw claims aliasing the caller's input buffer) ------------------------------------
+
+const ExtRawName = "http://example.com/psa-raw/1.0.0"
+
+type ExtRawClaims struct {
+	psatoken.P2Claims
+	Blob  cbor.RawMessage  `cbor:"-75900,keyasint,omitempty" json:"-"`
+	BlobP *cbor.RawMessage `cbor:"-75901,keyasint,omitempty" json:"-"`
+}
+
+func (o *ExtRawClaims) Validate() error { return psatoken.ValidateClaims(o) }
+
+func (o ExtRawClaims) MarshalCBOR() ([]byte, error) { return encoding.SerializeStructToCBOR(EM, &o) }
+func (o *ExtRawClaims) UnmarshalCBOR(data []byte) error {
+	return encoding.PopulateStructFromCBOR(DM, data, o)
+}
+func (o ExtRawClaims) MarshalJSON() ([]byte, error) { return encoding.SerializeStructToJSON(&o) }
+func (o *ExtRawClaims) UnmarshalJSON(data []byte) error {
+	return encoding.PopulateStructFromJSON(data, o)
+}
+
+type ExtRawProfile struct{}
+
+func (ExtRawProfile) GetName() string { return ExtRawName }
+func (ExtRawProfile) GetClaims() psatoken.IClaims {
+	p := eat.Profile{}
+	if err := p.Set(ExtRawName); err != nil {
+		panic(err)
+	}
+	return &ExtRawClaims{P2Claims: psatoken.P2Claims{Profile: &p, SwComponents: &psatoken.SwComponents[*psatoken.SwComponent]{}, CanonicalProfile: ExtRawName}}
 }
 
 // ---- generic numbered profiles (for registry histories) ------------------------------
